@@ -19,7 +19,7 @@ CHECKS = {
          "Every geometry of the stated space is compared element by element with the direct quadruple loop."),
  "C07": ("E1", "exhaustive enumeration of shapes x sum(k) / reshape targets / point-wise maps with signed, zero, tiny, saturating, overflowing and row-shifted valuations, and powf with extreme exponents, on the real library against the definitions", "4.C07",
          "Every shape of the stated space and every parameterisation is compared with the definition, including refusals of reshape."),
- "C08": ("E3", "explicit-state BFS (stateright) over a handle-pool machine (build incl. views and re-binding / clone / drop / flag / backward incl. caller-held seeds / clear / fetch / adopt / optimizer update); every transition replays the history on the real library; bitwise snapshot invariant in every state; plus exhaustive sweeps of Model::update over user-defined layers with unused parameters and of updates with hand-written reshaped gradients", "4.C08",
+ "C08": ("E3", "explicit-state BFS (stateright) over a handle-pool machine (build incl. views and re-binding, builds that must be refused / clone / drop / flag / backward incl. caller-held seeds / clear / fetch / adopt / optimizer update); every transition replays the history on the real library; bitwise snapshot invariant in every state; plus exhaustive sweeps of Model::update over user-defined layers with unused parameters and of updates with hand-written reshaped gradients", "4.C08",
          "In every reachable state of the bounded machines every pre-existing handle shows bit-identical dimensions and values after each action."),
  "C09": ("E1+E3", "exhaustive op-instance x operand-mask sweep plus explicit-state BFS over build / flag / clone / backward / fetch / adopt histories executed on the real library against a tracking-semantics reference", "4.C09",
          "The iff rule holds for every op instance and mask of the sweep; in every reachable state of the machines flags, gradient presence and values match the tracking semantics."),
